@@ -21,6 +21,11 @@ CHECKS = {
         text="Exploration: every generated program (C01/C02 generators, typed/untyped, optimiser on/off, cast directives) is decoded by an opcode table written independently of the VM (cross-checked against Disassemble), its operands, constant kinds and jump targets are checked, and its stack/scope depth is propagated along every control-flow path (never below what an instruction pops, equal at joins, one value and no scope at the end; programs with run-time sized arrays from map/filter are exempt from the depth dataflow and counted); each is then run on a caller-owned VM whose stack must be empty and scope closed after success, and no failure may carry Go's empty-stack signature. Eight constructions with branches / loop bodies beyond 64 KiB and constant pools beyond 65 535 entries must be refused at compile time or verify and agree with the reference evaluator.",
         note="Trusted: the harness opcode table (validated against Disassemble on every small program), the assumption that OpArray/OpMap sizes come from the preceding integer push, the reference evaluator for the large class.",
         ref="4/C05"),
+    "C15": dict(
+        technique="property-based testing (rapid), differential oracle across configurations: one generated source evaluated by Eval and by 14 compile variants ({no Env, Env(struct), Env(*struct), Env(map)} x AllowUndefinedVariables x Optimize), each run on struct / pointer / map twins of one generated environment value; all succeeding results must be Equiv",
+        text="Exploration: for each generated expression (C01 generator, rewrite-biased generator, expressions with several fast calls, 10% with a name the environment lacks) and environment value up to 45 (variant, environment representation) results are computed; every pair that succeeds must agree, so type information (specialised equality, map fetch, fast calls, re-typed literals, optimiser rewrites enabled by static types) may only add rejections. No reference model is involved.",
+        note="Trusted: Equiv; the struct/pointer/map twins built by the harness hold the same members. Failing variants are not compared. Known-finding regions that make succeeding variants disagree on the unchanged tree (F09 in-range rewrite, F12 sequence equality, F19 argument re-typing) are excluded by construction and counted.",
+        ref="4/C15"),
     "C10": dict(
         technique="bounded exhaustive enumeration of (parent kind, child slot, child kind) triples + rapid random ast.Node trees against a reflection-based child enumerator; replacement visitors; Patch differential (41->42) end to end",
         text="Exploration, exhaustive over all single-edge shapes: every node kind in every child slot of every parent kind (optional slots absent/present, lists of length 0-3), each with and without a replacing visitor on Enter and on Exit; random deep trees; parsed and optimised trees of generated programs; and a differential between Compile(src, Patch(41->42)) and Compile(src with 42) with the literal at drawn positions.",
